@@ -153,6 +153,18 @@ func (g *gen) corpus() {
 			s.OpSwap([]ReqProof{rp}, g.outputs(rp.P.Amount, env.ActiveKeysetId()))
 		}
 	}
+	// (3) an invoice of somebody else carrying the PAYMENT HASH of one of the mint's own unpaid invoices, for a smaller
+	//     amount: melting it must not settle the mint quote (F16: 1 sat burned, the quote PAID, its whole amount issued)
+	if qv := s.OpMintQuote(128, "sat", 0, false); qv != nil {
+		if fi, err := env.LN.forgeInvoice(env.LN.byHash[qv.Hash], 1000); err == nil {
+			s.regExt(fi)
+			if mq := s.OpMeltQuote(fi, "sat", 0, 0); mq != nil {
+				s.OpMeltLn(mq, take(mq.Amount+mq.Reserve+2), []string{"failed", "failed"}, false)
+			}
+			s.OpMint(qv, g.outputs(128, env.ActiveKeysetId()), 0) // never paid: must be refused
+			s.OpQuoteState(qv, false)
+		}
+	}
 	g.longSecrets = long
 }
 
@@ -834,6 +846,20 @@ func (g *gen) step() {
 			if err == nil {
 				s.regExt(li)
 				inv, mode = li, 2
+			}
+		case 4: // somebody else's invoice with the payment hash of one of the mint's own invoices, any amount (F16)
+			if len(s.mintQs) > 0 {
+				q := s.mintQs[r.Intn(len(s.mintQs))]
+				if own := env.LN.byHash[q.Hash]; own != nil && !own.huge {
+					msat := uint64(1+r.Intn(300)) * 1000
+					if r.Chance(30) {
+						msat = own.msat
+					}
+					if fi, err := env.LN.forgeInvoice(own, msat); err == nil {
+						s.regExt(fi)
+						inv = fi
+					}
+				}
 			}
 		}
 		if inv == nil && mode == 0 {
